@@ -45,13 +45,25 @@ type PresignedAuthReader struct {
 	auth   AuthData
 	secret string
 	r      io.Reader
+	hr     *HashReader
 	debug  bool
 }
 
 func NewPresignedAuthReader(ctx *fiber.Ctx, r io.Reader, auth AuthData, secret string, debug bool) *PresignedAuthReader {
+	// the signature of a presigned request does not cover the payload,
+	// but a payload digest sent along with it is an assertion about the
+	// body like in any other upload
+	var hr *HashReader
+	hashPayload := ctx.Get("X-Amz-Content-Sha256")
+	if hashPayload != "" && !IsSpecialPayload(hashPayload) {
+		hr, _ = NewHashReader(r, "", HashTypeSha256Hex)
+		r = hr
+	}
+
 	return &PresignedAuthReader{
 		ctx:    ctx,
 		r:      r,
+		hr:     hr,
 		auth:   auth,
 		secret: secret,
 		debug:  debug,
@@ -63,6 +75,9 @@ func (pr *PresignedAuthReader) Read(p []byte) (int, error) {
 	n, err := pr.r.Read(p)
 
 	if errors.Is(err, io.EOF) {
+		if pr.hr != nil && pr.hr.Sum() != pr.ctx.Get("X-Amz-Content-Sha256") {
+			return n, s3err.GetAPIError(s3err.ErrContentSHA256Mismatch)
+		}
 		cerr := CheckPresignedSignature(pr.ctx, pr.auth, pr.secret, pr.debug)
 		if cerr != nil {
 			return n, cerr
